@@ -64,6 +64,16 @@ theorem Stream.quad_ok {exc : PyErr} {s : Stream} {t : List Term} {enc' : EncSta
   · simp only [Stream.quad, h]
   · exact frameFromBounds_rows _
 
+theorem Stream.triple_err {exc : PyErr} {s : Stream} {t : List Term} {enc' : EncState} {e : PyErr}
+    (h : encodeTriple exc s.enc t = (enc', .error e)) :
+    s.triple exc t = ({ s with enc := enc' }, .error e) := by
+  simp only [Stream.triple, h]
+
+theorem Stream.quad_err {exc : PyErr} {s : Stream} {t : List Term} {enc' : EncState} {e : PyErr}
+    (h : encodeQuad exc s.enc t = (enc', .error e)) :
+    s.quad exc t = ({ s with enc := enc' }, .error e) := by
+  simp only [Stream.quad, h]
+
 theorem allRowsOf_epilogue (r : Run) (b : Bool) :
     allRowsOf (epilogue r b) = allRowsOf r ∧ (epilogue r b).err = r.err ∧
       (epilogue r b).stream.enc = r.stream.enc := by
@@ -234,6 +244,63 @@ theorem allRowsOf_push {r : Run} {s' : Stream} {fr : Option Frame} {rows : List 
   rw [rowsOf_push, h]
   simp [rowsOf, List.append_assoc]
 
+theorem posn_of_valid {P : Preset} (hv : P.valid = true) : 0 < P.maxNames := by
+  have : P.maxNames ≥ 8 := by simpa [Preset.valid, MIN_NAME_LOOKUP_SIZE] using hv
+  omega
+
+/-- The triple loop without sizing hypothesis (`F` = "every statement fits"): either the run ends
+    with an exception (impossible under `F`) and what has been written so far is accepted by the
+    reference decoder and denotes a prefix of the input, or it completes as in the sized case. -/
+theorem stmtLoop_triple_sim_gen {F : Prop} {P : Preset} {o : Options} (hv : P.valid = true)
+    (h1 : o.physicalType = 1) (exc : PyErr) :
+    ∀ (stmts : List (List Term)) (r : Run) (ss : Spec.State),
+      r.err = none → Inv P r.stream.enc ss → ss.opts = some o →
+      (∀ t ∈ stmts, tripleWF t = true) → (∀ t ∈ stmts, F → stmtFits P t = true) →
+      (¬ F ∧ (stmtLoop (Stream.triple exc) r stmts).err ≠ none ∧
+        ∃ ss' rows evs, allRowsOf (stmtLoop (Stream.triple exc) r stmts) = allRowsOf r ++ rows ∧
+          RunsTo ss rows ss' evs ∧ evs <+: stmts.map (fun t => Event.stmt (t.map Term.norm))) ∨
+      ∃ ss' rows, (stmtLoop (Stream.triple exc) r stmts).err = none ∧
+        allRowsOf (stmtLoop (Stream.triple exc) r stmts) = allRowsOf r ++ rows ∧
+        Inv P (stmtLoop (Stream.triple exc) r stmts).stream.enc ss' ∧ ss'.opts = some o ∧
+        RunsTo ss rows ss' (stmts.map (fun t => Event.stmt (t.map Term.norm))) := by
+  intro stmts
+  induction stmts with
+  | nil =>
+    intro r ss herr inv ho _ _
+    exact Or.inr ⟨ss, [], herr, by simp [stmtLoop], inv, ho, RunsTo.nil ss⟩
+  | cons t ts ih =>
+    intro r ss herr inv ho hwf hfit
+    obtain ⟨s, p, ob, rfl, hs, hp, hob⟩ := tripleWF_elim (hwf t List.mem_cons_self)
+    have hf : F → TFits P (stmtKeys P [s, p, ob]) :=
+      fun hF => TFits.of_stmtFits hv (hfit _ List.mem_cons_self hF)
+    rcases triple_run1_gen (posn_of_valid hv) hf inv ho h1 exc s p ob hs hp hob
+        (termKeys_sub_stmtKeys (by simp)) (termKeys_sub_stmtKeys (by simp)) (termKeys_sub_stmtKeys (by simp)) with
+      ⟨hnF, es', e, herr1⟩ | ⟨es', rows, ss1, heq, inv1, ho1, _, hrun⟩
+    · left
+      have hloop : stmtLoop (Stream.triple exc) r ([s, p, ob] :: ts)
+          = { r with stream := { r.stream with enc := es' }, err := some e } := by
+        simp only [stmtLoop, Stream.triple_err herr1]
+      rw [hloop]
+      exact ⟨hnF, by simp, ss, [], [], by simp [allRowsOf, rowsOf], RunsTo.nil ss, List.nil_prefix⟩
+    obtain ⟨s', fr, hstep, henc', hrows⟩ := Stream.triple_ok heq
+    have inv1' : Inv P (r.push s' fr).stream.enc ss1 := by simpa [Run.push, henc'] using inv1
+    have hloop : stmtLoop (Stream.triple exc) r ([s, p, ob] :: ts)
+        = stmtLoop (Stream.triple exc) (r.push s' fr) ts := by
+      simp only [stmtLoop, hstep]
+    rw [hloop]
+    rcases ih (r.push s' fr) ss1 (by simpa [Run.push] using herr) inv1' ho1
+      (fun t ht => hwf t (List.mem_cons_of_mem _ ht)) (fun t ht => hfit t (List.mem_cons_of_mem _ ht)) with
+      ⟨hnF, e1, ss', rows2, evs, e2, e5, hpre⟩ | ⟨ss', rows2, e1, e2, e3, e4, e5⟩
+    · left
+      refine ⟨hnF, e1, ss', rows ++ rows2, [Event.stmt [s.norm, p.norm, ob.norm]] ++ evs, ?_, ?_, ?_⟩
+      · rw [e2, allRowsOf_push hrows, List.append_assoc]
+      · exact RunsTo.trans (e₁ := [Event.stmt [s.norm, p.norm, ob.norm]]) hrun e5
+      · simpa using hpre
+    · right
+      refine ⟨ss', rows ++ rows2, e1, ?_, e3, e4, ?_⟩
+      · rw [e2, allRowsOf_push hrows, List.append_assoc]
+      · exact RunsTo.trans (e₁ := [Event.stmt [s.norm, p.norm, ob.norm]]) hrun e5
+
 theorem stmtLoop_triple_sim {P : Preset} {o : Options} (hv : P.valid = true) (h1 : o.physicalType = 1)
     (exc : PyErr) :
     ∀ (stmts : List (List Term)) (r : Run) (ss : Spec.State),
@@ -243,30 +310,56 @@ theorem stmtLoop_triple_sim {P : Preset} {o : Options} (hv : P.valid = true) (h1
         allRowsOf (stmtLoop (Stream.triple exc) r stmts) = allRowsOf r ++ rows ∧
         Inv P (stmtLoop (Stream.triple exc) r stmts).stream.enc ss' ∧ ss'.opts = some o ∧
         RunsTo ss rows ss' (stmts.map (fun t => Event.stmt (t.map Term.norm))) := by
+  intro stmts r ss herr inv ho hwf hfit
+  rcases stmtLoop_triple_sim_gen (F := True) hv h1 exc stmts r ss herr inv ho hwf (fun t ht _ => hfit t ht) with
+    ⟨h, _⟩ | h
+  · exact absurd trivial h
+  · exact h
+
+theorem stmtLoop_quad_sim_gen {F : Prop} {P : Preset} {o : Options} (hv : P.valid = true)
+    (h2 : o.physicalType = 2) (exc : PyErr) :
+    ∀ (stmts : List (List Term)) (r : Run) (ss : Spec.State),
+      r.err = none → Inv P r.stream.enc ss → ss.opts = some o →
+      (∀ t ∈ stmts, quadWF t = true) → (∀ t ∈ stmts, F → stmtFits P t = true) →
+      (¬ F ∧ (stmtLoop (Stream.quad exc) r stmts).err ≠ none) ∨
+      ∃ ss' rows, (stmtLoop (Stream.quad exc) r stmts).err = none ∧
+        allRowsOf (stmtLoop (Stream.quad exc) r stmts) = allRowsOf r ++ rows ∧
+        Inv P (stmtLoop (Stream.quad exc) r stmts).stream.enc ss' ∧ ss'.opts = some o ∧
+        RunsTo ss rows ss' (stmts.map (fun t => Event.stmt (t.map Term.norm))) := by
   intro stmts
   induction stmts with
   | nil =>
     intro r ss herr inv ho _ _
-    exact ⟨ss, [], herr, by simp [stmtLoop], inv, ho, RunsTo.nil ss⟩
+    exact Or.inr ⟨ss, [], herr, by simp [stmtLoop], inv, ho, RunsTo.nil ss⟩
   | cons t ts ih =>
     intro r ss herr inv ho hwf hfit
-    obtain ⟨s, p, ob, rfl, hs, hp, hob⟩ := tripleWF_elim (hwf t List.mem_cons_self)
-    have hf := TFits.of_stmtFits hv (hfit _ List.mem_cons_self)
-    obtain ⟨es', rows, ss1, heq, inv1, ho1, _, hrun⟩ :=
-      triple_run1 hf inv ho h1 exc s p ob hs hp hob
-        (termKeys_sub_stmtKeys (by simp)) (termKeys_sub_stmtKeys (by simp)) (termKeys_sub_stmtKeys (by simp))
-    obtain ⟨s', fr, hstep, henc', hrows⟩ := Stream.triple_ok heq
+    obtain ⟨s, p, ob, g, rfl, hs, hp, hob, hg⟩ := quadWF_elim (hwf t List.mem_cons_self)
+    have hf : F → TFits P (stmtKeys P [s, p, ob, g]) :=
+      fun hF => TFits.of_stmtFits hv (hfit _ List.mem_cons_self hF)
+    rcases quad_run_gen (posn_of_valid hv) hf inv ho h2 exc s p ob g hs hp hob hg
+        (termKeys_sub_stmtKeys (by simp)) (termKeys_sub_stmtKeys (by simp))
+        (termKeys_sub_stmtKeys (by simp)) (termKeys_sub_stmtKeys (by simp)) with
+      ⟨hnF, es', e, herr1⟩ | ⟨es', rows, ss1, heq, inv1, ho1, _, hrun⟩
+    · left
+      have hloop : stmtLoop (Stream.quad exc) r ([s, p, ob, g] :: ts)
+          = { r with stream := { r.stream with enc := es' }, err := some e } := by
+        simp only [stmtLoop, Stream.quad_err herr1]
+      rw [hloop]
+      exact ⟨hnF, by simp⟩
+    obtain ⟨s', fr, hstep, henc', hrows⟩ := Stream.quad_ok heq
     have inv1' : Inv P (r.push s' fr).stream.enc ss1 := by simpa [Run.push, henc'] using inv1
-    obtain ⟨ss', rows2, e1, e2, e3, e4, e5⟩ := ih (r.push s' fr) ss1 (by simpa [Run.push] using herr) inv1' ho1
-      (fun t ht => hwf t (List.mem_cons_of_mem _ ht)) (fun t ht => hfit t (List.mem_cons_of_mem _ ht))
-    have hloop : stmtLoop (Stream.triple exc) r ([s, p, ob] :: ts)
-        = stmtLoop (Stream.triple exc) (r.push s' fr) ts := by
+    have hloop : stmtLoop (Stream.quad exc) r ([s, p, ob, g] :: ts)
+        = stmtLoop (Stream.quad exc) (r.push s' fr) ts := by
       simp only [stmtLoop, hstep]
     rw [hloop]
-    refine ⟨ss', rows ++ rows2, e1, ?_, e3, e4, ?_⟩
-    · rw [e2, allRowsOf_push hrows, List.append_assoc]
-    · exact RunsTo.trans (e₁ := [Event.stmt [s.norm, p.norm, ob.norm]]) hrun e5
-
+    rcases ih (r.push s' fr) ss1 (by simpa [Run.push] using herr) inv1' ho1
+      (fun t ht => hwf t (List.mem_cons_of_mem _ ht)) (fun t ht => hfit t (List.mem_cons_of_mem _ ht)) with
+      h | ⟨ss', rows2, e1, e2, e3, e4, e5⟩
+    · exact Or.inl h
+    · right
+      refine ⟨ss', rows ++ rows2, e1, ?_, e3, e4, ?_⟩
+      · rw [e2, allRowsOf_push hrows, List.append_assoc]
+      · exact RunsTo.trans (e₁ := [Event.stmt [s.norm, p.norm, ob.norm, g.norm]]) hrun e5
 
 theorem stmtLoop_quad_sim {P : Preset} {o : Options} (hv : P.valid = true) (h2 : o.physicalType = 2)
     (exc : PyErr) :
@@ -277,30 +370,19 @@ theorem stmtLoop_quad_sim {P : Preset} {o : Options} (hv : P.valid = true) (h2 :
         allRowsOf (stmtLoop (Stream.quad exc) r stmts) = allRowsOf r ++ rows ∧
         Inv P (stmtLoop (Stream.quad exc) r stmts).stream.enc ss' ∧ ss'.opts = some o ∧
         RunsTo ss rows ss' (stmts.map (fun t => Event.stmt (t.map Term.norm))) := by
-  intro stmts
-  induction stmts with
-  | nil =>
-    intro r ss herr inv ho _ _
-    exact ⟨ss, [], herr, by simp [stmtLoop], inv, ho, RunsTo.nil ss⟩
-  | cons t ts ih =>
-    intro r ss herr inv ho hwf hfit
-    obtain ⟨s, p, ob, g, rfl, hs, hp, hob, hg⟩ := quadWF_elim (hwf t List.mem_cons_self)
-    have hf := TFits.of_stmtFits hv (hfit _ List.mem_cons_self)
-    obtain ⟨es', rows, ss1, heq, inv1, ho1, _, hrun⟩ :=
-      quad_run hf inv ho h2 exc s p ob g hs hp hob hg
-        (termKeys_sub_stmtKeys (by simp)) (termKeys_sub_stmtKeys (by simp))
-        (termKeys_sub_stmtKeys (by simp)) (termKeys_sub_stmtKeys (by simp))
-    obtain ⟨s', fr, hstep, henc', hrows⟩ := Stream.quad_ok heq
-    have inv1' : Inv P (r.push s' fr).stream.enc ss1 := by simpa [Run.push, henc'] using inv1
-    obtain ⟨ss', rows2, e1, e2, e3, e4, e5⟩ := ih (r.push s' fr) ss1 (by simpa [Run.push] using herr) inv1' ho1
-      (fun t ht => hwf t (List.mem_cons_of_mem _ ht)) (fun t ht => hfit t (List.mem_cons_of_mem _ ht))
-    have hloop : stmtLoop (Stream.quad exc) r ([s, p, ob, g] :: ts)
-        = stmtLoop (Stream.quad exc) (r.push s' fr) ts := by
-      simp only [stmtLoop, hstep]
-    rw [hloop]
-    refine ⟨ss', rows ++ rows2, e1, ?_, e3, e4, ?_⟩
-    · rw [e2, allRowsOf_push hrows, List.append_assoc]
-    · exact RunsTo.trans (e₁ := [Event.stmt [s.norm, p.norm, ob.norm, g.norm]]) hrun e5
+  intro stmts r ss herr inv ho hwf hfit
+  rcases stmtLoop_quad_sim_gen (F := True) hv h2 exc stmts r ss herr inv ho hwf (fun t ht _ => hfit t ht) with
+    ⟨h, _⟩ | h
+  · exact absurd trivial h
+  · exact h
+
+/-- The options row followed by a segment of the reference run. -/
+theorem runRows_options {s : Stream} {ss0 ss' : Spec.State} {rows : List Row} {evs : List Event}
+    (hstep : Spec.step {} s.optionsRow = .ok (ss0, none)) (hrun : RunsTo ss0 rows ss' evs) :
+    Spec.runRows ([s.optionsRow] ++ rows) = (ss', evs, none) := by
+  simp only [Spec.runRows, List.singleton_append, run_cons_ok hstep, Option.toList, List.append_nil]
+  have := hrun.final [] (0 + 1)
+  simpa using this
 
 /-- The start of every run on a fresh stream: the options row, then the reference decoder is in a
     state related to the writer's. -/
@@ -314,14 +396,54 @@ theorem final_assembly {s : Stream} {cls : StreamClass} {o : SerOptions} (hs : S
   obtain ⟨ss', rows, herr, hrows, hrun⟩ := hloop ss0 oo inv0 ho0 hph hg0
   refine ⟨herr, ss', ?_⟩
   rw [hrows]
-  simp only [Spec.runRows, List.singleton_append, run_cons_ok hstep, Option.toList, List.append_nil]
-  have := hrun.final [] (0 + 1)
-  simpa using this
+  exact runRows_options hstep hrun
 
 theorem enroll_fresh {s : Stream} {cls : StreamClass} {o : SerOptions} (hs : Stream.new cls o = .ok s) :
     s.enroll.enc = s.enc ∧ allRowsOf { stream := s.enroll } = [s.optionsRow] := by
   obtain ⟨_, _, _, _, hrows, henr, _⟩ := Stream.new_spec hs
   simp [Stream.enroll, henr, Stream.pushRows, allRowsOf, rowsOf, hrows]
+
+/-- TRIPLES without sizing hypothesis (`F` = "every statement fits"): either the run ends with an
+    exception (impossible under `F`) — and then everything written so far, frames and pending rows, is
+    accepted by the reference decoder and denotes a prefix of the input — or the run completes and
+    denotes the input. -/
+theorem triples_sim_gen {F : Prop} (o : SerOptions) (s : Stream) (stmts : List (List Term))
+    (hs : Stream.new .triple o = .ok s) (hl : validLogical s.logicalType = true)
+    (hwf : ∀ t ∈ stmts, tripleWF t = true) (hfit : ∀ t ∈ stmts, F → stmtFits o.preset t = true) :
+    (¬ F ∧ (streamFrames s (.gen stmts)).err ≠ none ∧
+      ∃ st evs, Spec.runRows (allRowsOf (streamFrames s (.gen stmts))) = (st, evs, none) ∧
+        evs <+: stmts.map (fun t => Event.stmt (t.map Term.norm))) ∨
+    ((streamFrames s (.gen stmts)).err = none ∧
+      ∃ st, Spec.runRows (allRowsOf (streamFrames s (.gen stmts)))
+            = (st, stmts.map (fun t => Event.stmt (t.map Term.norm)), none)) := by
+  obtain ⟨hv, hcls, _⟩ := Stream.new_spec hs
+  obtain ⟨henc, hrows0⟩ := enroll_fresh hs
+  obtain ⟨ss0, oo, hstep, inv0, ho0, hph, _⟩ := options_step hs hl
+  rcases stmtLoop_triple_sim_gen (F := F) hv (o := oo) (by simpa [StreamClass.physical] using hph)
+      .runtimeError stmts { stream := s.enroll } ss0 rfl (by rw [henc]; exact inv0) ho0 hwf hfit with
+    ⟨hnF, e1, ss', rows, evs, e2, e5, hpre⟩ | ⟨ss', rows, e1, e2, _, _, e5⟩
+  · left
+    have hsome : (stmtLoop (Stream.triple .runtimeError) { stream := s.enroll } stmts).err.isSome = true := by
+      cases h : (stmtLoop (Stream.triple .runtimeError) { stream := s.enroll } stmts).err with
+      | none => exact absurd h e1
+      | some _ => rfl
+    have hsf : streamFrames s (.gen stmts)
+        = stmtLoop (Stream.triple .runtimeError) { stream := s.enroll } stmts := by
+      simp only [streamFrames, hcls, triplesStreamFrames, prologue, SerData.stmts, hsome, if_true]
+    rw [hsf]
+    refine ⟨hnF, e1, ss', evs, ?_, hpre⟩
+    rw [e2, hrows0]
+    exact runRows_options hstep e5
+  · right
+    have hsf : streamFrames s (.gen stmts)
+        = epilogue (stmtLoop (Stream.triple .runtimeError) { stream := s.enroll } stmts) false := by
+      simp only [streamFrames, hcls, triplesStreamFrames, prologue, SerData.stmts, e1, Option.isSome_none,
+        Bool.false_eq_true, if_false]
+    obtain ⟨a1, a2, _⟩ := allRowsOf_epilogue (stmtLoop (Stream.triple .runtimeError) { stream := s.enroll } stmts) false
+    rw [hsf]
+    refine ⟨a2.trans e1, ss', ?_⟩
+    rw [a1, e2, hrows0]
+    exact runRows_options hstep e5
 
 theorem triples_sim (o : SerOptions) (s : Stream) (stmts : List (List Term))
     (hs : Stream.new .triple o = .ok s) (hl : validLogical s.logicalType = true)
@@ -329,20 +451,43 @@ theorem triples_sim (o : SerOptions) (s : Stream) (stmts : List (List Term))
     (streamFrames s (.gen stmts)).err = none ∧
     ∃ st, Spec.runRows (allRowsOf (streamFrames s (.gen stmts)))
             = (st, stmts.map (fun t => Event.stmt (t.map Term.norm)), none) := by
+  rcases triples_sim_gen (F := True) o s stmts hs hl hwf (fun t ht _ => hfit t ht) with ⟨h, _⟩ | h
+  · exact absurd trivial h
+  · exact h
+
+theorem quads_sim_gen {F : Prop} (o : SerOptions) (s : Stream) (stmts : List (List Term))
+    (hs : Stream.new .quad o = .ok s) (hl : validLogical s.logicalType = true)
+    (hwf : ∀ t ∈ stmts, quadWF t = true) (hfit : ∀ t ∈ stmts, F → stmtFits o.preset t = true) :
+    (¬ F ∧ (streamFrames s (.gen stmts)).err ≠ none) ∨
+    ((streamFrames s (.gen stmts)).err = none ∧
+      ∃ st, Spec.runRows (allRowsOf (streamFrames s (.gen stmts)))
+            = (st, stmts.map (fun t => Event.stmt (t.map Term.norm)), none)) := by
   obtain ⟨hv, hcls, _⟩ := Stream.new_spec hs
   obtain ⟨henc, hrows0⟩ := enroll_fresh hs
-  apply final_assembly hs hl
-  intro ss0 oo inv0 ho0 hph _
-  obtain ⟨ss', rows, e1, e2, _, _, e5⟩ :=
-    stmtLoop_triple_sim hv (o := oo) (by simpa [StreamClass.physical] using hph) .runtimeError stmts
-      { stream := s.enroll } ss0 rfl (by rw [henc]; exact inv0) ho0 hwf hfit
-  have hsf : streamFrames s (.gen stmts)
-      = epilogue (stmtLoop (Stream.triple .runtimeError) { stream := s.enroll } stmts) false := by
-    simp only [streamFrames, hcls, triplesStreamFrames, prologue, SerData.stmts, e1, Option.isSome_none,
-      Bool.false_eq_true, if_false]
-  obtain ⟨a1, a2, _⟩ := allRowsOf_epilogue (stmtLoop (Stream.triple .runtimeError) { stream := s.enroll } stmts) false
-  rw [hsf]
-  exact ⟨ss', rows, a2.trans e1, by rw [a1, e2, hrows0], e5⟩
+  obtain ⟨ss0, oo, hstep, inv0, ho0, hph, _⟩ := options_step hs hl
+  rcases stmtLoop_quad_sim_gen (F := F) hv (o := oo) (by simpa [StreamClass.physical] using hph)
+      .runtimeError stmts { stream := s.enroll } ss0 rfl (by rw [henc]; exact inv0) ho0 hwf hfit with
+    ⟨hnF, e1⟩ | ⟨ss', rows, e1, e2, _, _, e5⟩
+  · left
+    have hsome : (stmtLoop (Stream.quad .runtimeError) { stream := s.enroll } stmts).err.isSome = true := by
+      cases h : (stmtLoop (Stream.quad .runtimeError) { stream := s.enroll } stmts).err with
+      | none => exact absurd h e1
+      | some _ => rfl
+    have hsf : streamFrames s (.gen stmts)
+        = stmtLoop (Stream.quad .runtimeError) { stream := s.enroll } stmts := by
+      simp only [streamFrames, hcls, quadsStreamFrames, prologue, SerData.stmts, hsome, if_true]
+    rw [hsf]
+    exact ⟨hnF, e1⟩
+  · right
+    have hsf : streamFrames s (.gen stmts)
+        = epilogue (stmtLoop (Stream.quad .runtimeError) { stream := s.enroll } stmts) true := by
+      simp only [streamFrames, hcls, quadsStreamFrames, prologue, SerData.stmts, e1, Option.isSome_none,
+        Bool.false_eq_true, if_false]
+    obtain ⟨a1, a2, _⟩ := allRowsOf_epilogue (stmtLoop (Stream.quad .runtimeError) { stream := s.enroll } stmts) true
+    rw [hsf]
+    refine ⟨a2.trans e1, ss', ?_⟩
+    rw [a1, e2, hrows0]
+    exact runRows_options hstep e5
 
 theorem quads_sim (o : SerOptions) (s : Stream) (stmts : List (List Term))
     (hs : Stream.new .quad o = .ok s) (hl : validLogical s.logicalType = true)
@@ -350,20 +495,9 @@ theorem quads_sim (o : SerOptions) (s : Stream) (stmts : List (List Term))
     (streamFrames s (.gen stmts)).err = none ∧
     ∃ st, Spec.runRows (allRowsOf (streamFrames s (.gen stmts)))
             = (st, stmts.map (fun t => Event.stmt (t.map Term.norm)), none) := by
-  obtain ⟨hv, hcls, _⟩ := Stream.new_spec hs
-  obtain ⟨henc, hrows0⟩ := enroll_fresh hs
-  apply final_assembly hs hl
-  intro ss0 oo inv0 ho0 hph _
-  obtain ⟨ss', rows, e1, e2, _, _, e5⟩ :=
-    stmtLoop_quad_sim hv (o := oo) (by simpa [StreamClass.physical] using hph) .runtimeError stmts
-      { stream := s.enroll } ss0 rfl (by rw [henc]; exact inv0) ho0 hwf hfit
-  have hsf : streamFrames s (.gen stmts)
-      = epilogue (stmtLoop (Stream.quad .runtimeError) { stream := s.enroll } stmts) true := by
-    simp only [streamFrames, hcls, quadsStreamFrames, prologue, SerData.stmts, e1, Option.isSome_none,
-      Bool.false_eq_true, if_false]
-  obtain ⟨a1, a2, _⟩ := allRowsOf_epilogue (stmtLoop (Stream.quad .runtimeError) { stream := s.enroll } stmts) true
-  rw [hsf]
-  exact ⟨ss', rows, a2.trans e1, by rw [a1, e2, hrows0], e5⟩
+  rcases quads_sim_gen (F := True) o s stmts hs hl hwf (fun t ht _ => hfit t ht) with ⟨h, _⟩ | h
+  · exact absurd trivial h
+  · exact h
 
 
 /-! ## Graph streams -/
@@ -376,11 +510,63 @@ def TermFits (P : Preset) (ts : List Term) : Prop :=
 def TripleOK (P : Preset) (t : List Term) : Prop :=
   ∃ a b c, t = [a, b, c] ∧ a.WF = true ∧ b.WF = true ∧ c.WF = true ∧ TermFits P [a, b, c]
 
+/-- General forms: the sizing part holds under `F` only. -/
+def TermFitsG (F : Prop) (P : Preset) (ts : List Term) : Prop :=
+  ∃ T, (F → TFits P T) ∧ ∀ t ∈ ts, (termKeys (P.maxPrefixes != 0) t).sub T
+
+def TripleOKG (F : Prop) (P : Preset) (t : List Term) : Prop :=
+  ∃ a b c, t = [a, b, c] ∧ a.WF = true ∧ b.WF = true ∧ c.WF = true ∧ TermFitsG F P [a, b, c]
+
+theorem TermFits.toG {P : Preset} {ts : List Term} (h : TermFits P ts) : TermFitsG True P ts := by
+  obtain ⟨T, hf, hk⟩ := h
+  exact ⟨T, fun _ => hf, hk⟩
+
+theorem TripleOK.toG {P : Preset} {t : List Term} (h : TripleOK P t) : TripleOKG True P t := by
+  obtain ⟨a, b, c, e, ha, hb, hc, hf⟩ := h
+  exact ⟨a, b, c, e, ha, hb, hc, hf.toG⟩
+
 theorem rowsOf_push' {frames : List Frame} {s s' : Stream} {fr : Option Frame} {rows : List Row}
     (h : frRows fr ++ s'.flow.rows = s.flow.rows ++ rows) :
     rowsOf (frames ++ fr.toList) s' = rowsOf frames s ++ rows := by
   rw [rowsOf_push, h]
   simp [rowsOf, List.append_assoc]
+
+theorem Stream.graphTriples_sim_gen {F : Prop} {P : Preset} {o : Options} (hpn : 0 < P.maxNames)
+    (h3 : o.physicalType = 3) (exc : PyErr) (gn : Term) :
+    ∀ (triples : List (List Term)) (s : Stream) (acc : List Frame) (ss : Spec.State),
+      Inv P s.enc ss → ss.opts = some o → ss.graph = some gn →
+      (∀ t ∈ triples, TripleOKG F P t) →
+      (¬ F ∧ ∃ s' frames' e, Stream.graphTriples exc s triples acc = (s', frames', some e)) ∨
+      ∃ s' frames' ss' rows, Stream.graphTriples exc s triples acc = (s', frames', none) ∧
+        rowsOf frames' s' = rowsOf acc s ++ rows ∧ Inv P s'.enc ss' ∧ ss'.opts = some o ∧
+        ss'.graph = some gn ∧
+        RunsTo ss rows ss' (triples.map (fun t => Event.stmt (t.map Term.norm ++ [gn]))) := by
+  intro triples
+  induction triples with
+  | nil =>
+    intro s acc ss inv ho hg _
+    exact Or.inr ⟨s, acc, ss, [], by simp [Stream.graphTriples], by simp, inv, ho, hg, RunsTo.nil ss⟩
+  | cons t ts ih =>
+    intro s acc ss inv ho hg hok
+    obtain ⟨a, b, c, rfl, ha, hb, hc, T, hf, hk⟩ := hok t List.mem_cons_self
+    rcases triple_run3_gen hpn hf inv ho h3 hg exc a b c ha hb hc (hk a (by simp)) (hk b (by simp))
+        (hk c (by simp)) with
+      ⟨hnF, es', e, herr⟩ | ⟨es', rows, ss1, heq, inv1, ho1, hg1, hrun⟩
+    · left
+      refine ⟨hnF, ?_⟩
+      simp only [Stream.graphTriples, Stream.triple_err herr]
+      exact ⟨_, _, _, rfl⟩
+    obtain ⟨s', fr, hstep, henc', hrows⟩ := Stream.triple_ok heq
+    rcases ih s' (acc ++ fr.toList) ss1 (by rw [henc']; exact inv1) ho1 hg1
+        (fun t ht => hok t (List.mem_cons_of_mem _ ht)) with
+      ⟨hnF, s2, frames2, e, e1⟩ | ⟨s2, frames2, ss2, rows2, e1, e2, e3, e4, e5, e6⟩
+    · left
+      exact ⟨hnF, s2, frames2, e, by simp only [Stream.graphTriples, hstep, e1]⟩
+    right
+    refine ⟨s2, frames2, ss2, rows ++ rows2, ?_, ?_, e3, e4, e5, ?_⟩
+    · simp only [Stream.graphTriples, hstep, e1]
+    · rw [e2, rowsOf_push' hrows, List.append_assoc]
+    · exact RunsTo.trans (e₁ := [Event.stmt [a.norm, b.norm, c.norm, gn]]) hrun e6
 
 theorem Stream.graphTriples_sim {P : Preset} {o : Options} (h3 : o.physicalType = 3) (exc : PyErr)
     (gn : Term) :
@@ -391,40 +577,42 @@ theorem Stream.graphTriples_sim {P : Preset} {o : Options} (h3 : o.physicalType 
         rowsOf frames' s' = rowsOf acc s ++ rows ∧ Inv P s'.enc ss' ∧ ss'.opts = some o ∧
         ss'.graph = some gn ∧
         RunsTo ss rows ss' (triples.map (fun t => Event.stmt (t.map Term.norm ++ [gn]))) := by
-  intro triples
-  induction triples with
-  | nil =>
-    intro s acc ss inv ho hg _
-    exact ⟨s, acc, ss, [], by simp [Stream.graphTriples], by simp, inv, ho, hg, RunsTo.nil ss⟩
-  | cons t ts ih =>
-    intro s acc ss inv ho hg hok
-    obtain ⟨a, b, c, rfl, ha, hb, hc, T, hf, hk⟩ := hok t List.mem_cons_self
-    obtain ⟨es', rows, ss1, heq, inv1, ho1, hg1, hrun⟩ :=
-      triple_run3 hf inv ho h3 hg exc a b c ha hb hc (hk a (by simp)) (hk b (by simp)) (hk c (by simp))
-    obtain ⟨s', fr, hstep, henc', hrows⟩ := Stream.triple_ok heq
-    obtain ⟨s2, frames2, ss2, rows2, e1, e2, e3, e4, e5, e6⟩ :=
-      ih s' (acc ++ fr.toList) ss1 (by rw [henc']; exact inv1) ho1 hg1
-        (fun t ht => hok t (List.mem_cons_of_mem _ ht))
-    refine ⟨s2, frames2, ss2, rows ++ rows2, ?_, ?_, e3, e4, e5, ?_⟩
-    · simp only [Stream.graphTriples, hstep, e1]
-    · rw [e2, rowsOf_push' hrows, List.append_assoc]
-    · exact RunsTo.trans (e₁ := [Event.stmt [a.norm, b.norm, c.norm, gn]]) hrun e6
+  intro triples s acc ss inv ho hg hok
+  cases triples with
+  | nil => exact ⟨s, acc, ss, [], by simp [Stream.graphTriples], by simp, inv, ho, hg, RunsTo.nil ss⟩
+  | cons t ts =>
+    have hpn : 0 < P.maxNames := by
+      obtain ⟨_, _, _, _, _, _, _, T, hf, _⟩ := hok t List.mem_cons_self
+      exact hf.posn
+    rcases Stream.graphTriples_sim_gen (F := True) hpn h3 exc gn (t :: ts) s acc ss inv ho hg
+        (fun t ht => (hok t ht).toG) with ⟨h, _⟩ | h
+    · exact absurd trivial h
+    · exact h
 
-theorem Stream.graph_sim {P : Preset} {o : Options} (h3 : o.physicalType = 3) (exc : PyErr)
+theorem Stream.graph_sim_gen {F : Prop} {P : Preset} {o : Options} (hpn : 0 < P.maxNames)
+    (h3 : o.physicalType = 3) (exc : PyErr)
     (s : Stream) (ss : Spec.State) (g : Term) (triples : List (List Term))
     (inv : Inv P s.enc ss) (ho : ss.opts = some o)
-    (hg : g.WFGraph = true) (hgf : TermFits P [g]) (htr : ∀ t ∈ triples, TripleOK P t) :
+    (hg : g.WFGraph = true) (hgf : TermFitsG F P [g]) (htr : ∀ t ∈ triples, TripleOKG F P t) :
+    (¬ F ∧ ∃ s' frames e, s.graph exc g triples = (s', frames, some e)) ∨
     ∃ s' frames ss' rows, s.graph exc g triples = (s', frames, none) ∧
       rowsOf frames s' = s.flow.rows ++ rows ∧ Inv P s'.enc ss' ∧ ss'.opts = some o ∧
       ss'.graph = none ∧
       RunsTo ss rows ss' (triples.map (fun t => Event.stmt (t.map Term.norm ++ [g.norm]))) := by
   obtain ⟨T, hf, hk⟩ := hgf
-  obtain ⟨te', rows0, w, ss1, heq, inv1, ho1, hg1, hrun1⟩ :=
-    graphStart_run hf inv ho h3 g hg (hk g (by simp))
-  obtain ⟨s2, frames2, ss2, rows2, e1, e2, e3, e4, e5, e6⟩ :=
-    Stream.graphTriples_sim h3 exc g.norm triples
+  rcases graphStart_run_gen hpn hf inv ho h3 g hg (hk g (by simp)) with
+    ⟨hnF, te', e, herr⟩ | ⟨te', rows0, w, ss1, heq, inv1, ho1, hg1, hrun1⟩
+  · left
+    refine ⟨hnF, ?_⟩
+    simp only [Stream.graph, herr]
+    exact ⟨_, _, _, rfl⟩
+  rcases Stream.graphTriples_sim_gen hpn h3 exc g.norm triples
       (({ s with enc := { s.enc with te := te' } } : Stream).pushRows (rows0 ++ [Row.graphStart (some w)]))
-      [] ss1 inv1 ho1 hg1 htr
+      [] ss1 inv1 ho1 hg1 htr with
+    ⟨hnF, s2, frames2, e, e1⟩ | ⟨s2, frames2, ss2, rows2, e1, e2, e3, e4, e5, e6⟩
+  · left
+    exact ⟨hnF, s2, frames2, e, by simp only [Stream.graph, heq, e1]⟩
+  right
   obtain ⟨ss3, inv3, ho3, hg3, hrun3⟩ := graphEnd_run e3 e4 h3 e5
   refine ⟨{ (s2.pushRows [Row.graphEnd]) with flow := (s2.pushRows [Row.graphEnd]).flow.frameFromBounds.1 },
     frames2 ++ (s2.pushRows [Row.graphEnd]).flow.frameFromBounds.2.toList, ss3,
@@ -443,35 +631,67 @@ theorem Stream.graph_sim {P : Preset} {o : Options} (h3 : o.physicalType = 3) (e
     have := (RunsTo.of_noev hrun1).trans (e6.trans hend)
     simpa using this
 
+theorem Stream.graph_sim {P : Preset} {o : Options} (h3 : o.physicalType = 3) (exc : PyErr)
+    (s : Stream) (ss : Spec.State) (g : Term) (triples : List (List Term))
+    (inv : Inv P s.enc ss) (ho : ss.opts = some o)
+    (hg : g.WFGraph = true) (hgf : TermFits P [g]) (htr : ∀ t ∈ triples, TripleOK P t) :
+    ∃ s' frames ss' rows, s.graph exc g triples = (s', frames, none) ∧
+      rowsOf frames s' = s.flow.rows ++ rows ∧ Inv P s'.enc ss' ∧ ss'.opts = some o ∧
+      ss'.graph = none ∧
+      RunsTo ss rows ss' (triples.map (fun t => Event.stmt (t.map Term.norm ++ [g.norm]))) := by
+  have hpn : 0 < P.maxNames := by
+    obtain ⟨T, hf, _⟩ := hgf
+    exact hf.posn
+  rcases Stream.graph_sim_gen (F := True) hpn h3 exc s ss g triples inv ho hg hgf.toG
+      (fun t ht => (htr t ht).toG) with ⟨h, _⟩ | h
+  · exact absurd trivial h
+  · exact h
 
 def CurOK (P : Preset) (cur : Option (Term × List (List Term))) : Prop :=
   match cur with
   | none => True
   | some (g, acc) => g.WFGraph = true ∧ TermFits P [g] ∧ ∀ t ∈ acc, TripleOK P t
 
+def CurOKG (F : Prop) (P : Preset) (cur : Option (Term × List (List Term))) : Prop :=
+  match cur with
+  | none => True
+  | some (g, acc) => g.WFGraph = true ∧ TermFitsG F P [g] ∧ ∀ t ∈ acc, TripleOKG F P t
+
+theorem CurOK.toG {P : Preset} {cur : Option (Term × List (List Term))} (h : CurOK P cur) :
+    CurOKG True P cur := by
+  match cur, h with
+  | none, _ => trivial
+  | some (g, acc), h => exact ⟨h.1, h.2.1.toG, fun t ht => (h.2.2 t ht).toG⟩
+
 def pendingEvs (cur : Option (Term × List (List Term))) : List Event :=
   match cur with
   | none => []
   | some (g, acc) => acc.map (fun t => Event.stmt (t.map Term.norm ++ [g.norm]))
 
-theorem graphsLoop_sim {P : Preset} {o : Options} (hv : P.valid = true) (h3 : o.physicalType = 3) :
+theorem graphsLoop_sim_gen {F : Prop} {P : Preset} {o : Options} (hv : P.valid = true)
+    (h3 : o.physicalType = 3) :
     ∀ (stmts : List (List Term)) (r : Run) (ss : Spec.State) (cur : Option (Term × List (List Term))),
-      r.err = none → Inv P r.stream.enc ss → ss.opts = some o → CurOK P cur →
-      (∀ t ∈ stmts, quadWF t = true) → (∀ t ∈ stmts, stmtFits P t = true) →
+      r.err = none → Inv P r.stream.enc ss → ss.opts = some o → CurOKG F P cur →
+      (∀ t ∈ stmts, quadWF t = true) → (∀ t ∈ stmts, F → stmtFits P t = true) →
+      (¬ F ∧ (graphsLoop r cur stmts).err ≠ none) ∨
       ∃ ss' rows, (graphsLoop r cur stmts).err = none ∧
         allRowsOf (graphsLoop r cur stmts) = allRowsOf r ++ rows ∧
         RunsTo ss rows ss' (pendingEvs cur ++ stmts.map (fun t => Event.stmt (t.map Term.norm))) := by
+  have hpn := posn_of_valid hv
   intro stmts
   induction stmts with
   | nil =>
     intro r ss cur herr inv ho hcur _ _
     match cur, hcur with
     | none, _ =>
-      exact ⟨ss, [], by simpa [graphsLoop] using herr, by simp [graphsLoop], by simpa [pendingEvs] using RunsTo.nil ss⟩
+      exact Or.inr ⟨ss, [], by simpa [graphsLoop] using herr, by simp [graphsLoop],
+        by simpa [pendingEvs] using RunsTo.nil ss⟩
     | some (g, acc), hcur =>
       obtain ⟨hg, hgf, hacc⟩ := hcur
-      obtain ⟨s', frames, ss', rows, e1, e2, _, _, _, e6⟩ :=
-        Stream.graph_sim h3 .runtimeError r.stream ss g acc inv ho hg hgf hacc
+      rcases Stream.graph_sim_gen hpn h3 .runtimeError r.stream ss g acc inv ho hg hgf hacc with
+        ⟨hnF, s', frames, e, e1⟩ | ⟨s', frames, ss', rows, e1, e2, _, _, _, e6⟩
+      · exact Or.inl ⟨hnF, by simp [graphsLoop, e1]⟩
+      right
       refine ⟨ss', rows, by simp [graphsLoop, e1], ?_, by simpa [pendingEvs] using e6⟩
       simp only [graphsLoop, e1, allRowsOf]
       simp only [rowsOf, List.flatMap_append, List.append_assoc] at e2 ⊢
@@ -479,18 +699,22 @@ theorem graphsLoop_sim {P : Preset} {o : Options} (hv : P.valid = true) (h3 : o.
   | cons st rest ih =>
     intro r ss cur herr inv ho hcur hwf hfit
     obtain ⟨a, b, c, g, rfl, ha, hb, hc, hg⟩ := quadWF_elim (hwf st List.mem_cons_self)
-    have hf := TFits.of_stmtFits hv (hfit _ List.mem_cons_self)
-    have hgf : TermFits P [g] := ⟨_, hf, fun t ht => termKeys_sub_stmtKeys (by
+    have hf : F → TFits P (stmtKeys P [a, b, c, g]) :=
+      fun hF => TFits.of_stmtFits hv (hfit _ List.mem_cons_self hF)
+    have hgf : TermFitsG F P [g] := ⟨_, hf, fun t ht => termKeys_sub_stmtKeys (by
       simp only [List.mem_singleton] at ht; subst ht; simp)⟩
-    have htf : TripleOK P [a, b, c] := ⟨a, b, c, rfl, ha, hb, hc, _, hf, fun t ht => termKeys_sub_stmtKeys (by
+    have htf : TripleOKG F P [a, b, c] := ⟨a, b, c, rfl, ha, hb, hc, _, hf, fun t ht => termKeys_sub_stmtKeys (by
       simp only [List.mem_cons, List.not_mem_nil, or_false] at ht
       rcases ht with rfl | rfl | rfl <;> simp)⟩
     have hwf' := fun t ht => hwf t (List.mem_cons_of_mem _ ht)
     have hfit' := fun t ht => hfit t (List.mem_cons_of_mem _ ht)
     match cur, hcur with
     | none, _ =>
-      obtain ⟨ss', rows, e1, e2, e3⟩ := ih r ss (some (g, [[a, b, c]])) herr inv ho
-        ⟨hg, hgf, fun t ht => by simp only [List.mem_singleton] at ht; subst ht; exact htf⟩ hwf' hfit'
+      rcases ih r ss (some (g, [[a, b, c]])) herr inv ho
+        ⟨hg, hgf, fun t ht => by simp only [List.mem_singleton] at ht; subst ht; exact htf⟩ hwf' hfit' with
+        ⟨hnF, e1⟩ | ⟨ss', rows, e1, e2, e3⟩
+      · exact Or.inl ⟨hnF, by simpa [graphsLoop, stmtGraph?] using e1⟩
+      right
       refine ⟨ss', rows, ?_, ?_, ?_⟩
       · simpa [graphsLoop, stmtGraph?] using e1
       · simpa [graphsLoop, stmtGraph?] using e2
@@ -499,25 +723,31 @@ theorem graphsLoop_sim {P : Preset} {o : Options} (hv : P.valid = true) (h3 : o.
       obtain ⟨hcg, hcgf, hacc⟩ := hcur
       by_cases heq : cg = g
       · subst heq
-        obtain ⟨ss', rows, e1, e2, e3⟩ := ih r ss (some (cg, acc ++ [[a, b, c]])) herr inv ho
+        rcases ih r ss (some (cg, acc ++ [[a, b, c]])) herr inv ho
           ⟨hcg, hcgf, fun t ht => by
             rcases List.mem_append.mp ht with ht | ht
             · exact hacc t ht
-            · simp only [List.mem_singleton] at ht; subst ht; exact htf⟩ hwf' hfit'
+            · simp only [List.mem_singleton] at ht; subst ht; exact htf⟩ hwf' hfit' with
+          ⟨hnF, e1⟩ | ⟨ss', rows, e1, e2, e3⟩
+        · exact Or.inl ⟨hnF, by simpa [graphsLoop, stmtGraph?] using e1⟩
+        right
         refine ⟨ss', rows, ?_, ?_, ?_⟩
         · simpa [graphsLoop, stmtGraph?] using e1
         · simpa [graphsLoop, stmtGraph?] using e2
         · simpa [pendingEvs] using e3
-      · obtain ⟨s', frames, ss1, rows1, g1, g2, g3, g4, g5, g6⟩ :=
-          Stream.graph_sim h3 .runtimeError r.stream ss cg acc inv ho hcg hcgf hacc
-        obtain ⟨ss', rows, e1, e2, e3⟩ :=
-          ih { stream := s', frames := r.frames ++ frames, err := none } ss1 (some (g, [[a, b, c]])) rfl g3 g4
-            ⟨hg, hgf, fun t ht => by simp only [List.mem_singleton] at ht; subst ht; exact htf⟩ hwf' hfit'
-        have hne : (cg == g) = false := by simpa using heq
+      · have hne : (cg == g) = false := by simpa using heq
+        rcases Stream.graph_sim_gen hpn h3 .runtimeError r.stream ss cg acc inv ho hcg hcgf hacc with
+          ⟨hnF, s', frames, e, g1⟩ | ⟨s', frames, ss1, rows1, g1, g2, g3, g4, g5, g6⟩
+        · exact Or.inl ⟨hnF, by simp [graphsLoop, stmtGraph?, hne, g1]⟩
         have hloop : graphsLoop r (some (cg, acc)) ([a, b, c, g] :: rest)
             = graphsLoop { stream := s', frames := r.frames ++ frames, err := none } (some (g, [[a, b, c]])) rest := by
           simp [graphsLoop, stmtGraph?, hne, g1]
         rw [hloop]
+        rcases ih { stream := s', frames := r.frames ++ frames, err := none } ss1 (some (g, [[a, b, c]])) rfl g3 g4
+            ⟨hg, hgf, fun t ht => by simp only [List.mem_singleton] at ht; subst ht; exact htf⟩ hwf' hfit' with
+          h | ⟨ss', rows, e1, e2, e3⟩
+        · exact Or.inl h
+        right
         refine ⟨ss', rows1 ++ rows, e1, ?_, ?_⟩
         · rw [e2]
           simp only [allRowsOf]
@@ -528,26 +758,61 @@ theorem graphsLoop_sim {P : Preset} {o : Options} (hv : P.valid = true) (h3 : o.
         · have := g6.trans e3
           simpa [pendingEvs] using this
 
+theorem graphsLoop_sim {P : Preset} {o : Options} (hv : P.valid = true) (h3 : o.physicalType = 3) :
+    ∀ (stmts : List (List Term)) (r : Run) (ss : Spec.State) (cur : Option (Term × List (List Term))),
+      r.err = none → Inv P r.stream.enc ss → ss.opts = some o → CurOK P cur →
+      (∀ t ∈ stmts, quadWF t = true) → (∀ t ∈ stmts, stmtFits P t = true) →
+      ∃ ss' rows, (graphsLoop r cur stmts).err = none ∧
+        allRowsOf (graphsLoop r cur stmts) = allRowsOf r ++ rows ∧
+        RunsTo ss rows ss' (pendingEvs cur ++ stmts.map (fun t => Event.stmt (t.map Term.norm))) := by
+  intro stmts r ss cur herr inv ho hcur hwf hfit
+  rcases graphsLoop_sim_gen (F := True) hv h3 stmts r ss cur herr inv ho hcur.toG hwf
+      (fun t ht _ => hfit t ht) with ⟨h, _⟩ | h
+  · exact absurd trivial h
+  · exact h
+
+theorem graphs_sim_gen {F : Prop} (o : SerOptions) (s : Stream) (stmts : List (List Term))
+    (hs : Stream.new .graph o = .ok s) (hl : validLogical s.logicalType = true)
+    (hwf : ∀ t ∈ stmts, quadWF t = true) (hfit : ∀ t ∈ stmts, F → stmtFits o.preset t = true) :
+    (¬ F ∧ (streamFrames s (.gen stmts)).err ≠ none) ∨
+    ((streamFrames s (.gen stmts)).err = none ∧
+      ∃ st, Spec.runRows (allRowsOf (streamFrames s (.gen stmts)))
+            = (st, stmts.map (fun t => Event.stmt (t.map Term.norm)), none)) := by
+  obtain ⟨hv, hcls, _⟩ := Stream.new_spec hs
+  obtain ⟨henc, hrows0⟩ := enroll_fresh hs
+  obtain ⟨ss0, oo, hstep, inv0, ho0, hph, _⟩ := options_step hs hl
+  rcases graphsLoop_sim_gen (F := F) hv (o := oo) (by simpa [StreamClass.physical] using hph) stmts
+      { stream := s.enroll } ss0 none rfl (by rw [henc]; exact inv0) ho0 trivial hwf hfit with
+    ⟨hnF, e1⟩ | ⟨ss', rows, e1, e2, e5⟩
+  · left
+    have hsome : (graphsLoop { stream := s.enroll } none stmts).err.isSome = true := by
+      cases h : (graphsLoop { stream := s.enroll } none stmts).err with
+      | none => exact absurd h e1
+      | some _ => rfl
+    have hsf : streamFrames s (.gen stmts) = graphsLoop { stream := s.enroll } none stmts := by
+      simp only [streamFrames, hcls, graphsStreamFrames, prologue, SerData.stmts, hsome, if_true]
+    rw [hsf]
+    exact ⟨hnF, e1⟩
+  · right
+    have hsf : streamFrames s (.gen stmts)
+        = epilogue (graphsLoop { stream := s.enroll } none stmts) true := by
+      simp only [streamFrames, hcls, graphsStreamFrames, prologue, SerData.stmts, e1, Option.isSome_none,
+        Bool.false_eq_true, if_false]
+    obtain ⟨a1, a2, _⟩ := allRowsOf_epilogue (graphsLoop { stream := s.enroll } none stmts) true
+    rw [hsf]
+    refine ⟨a2.trans e1, ss', ?_⟩
+    rw [a1, e2, hrows0]
+    exact runRows_options hstep (by simpa [pendingEvs] using e5)
+
 theorem graphs_sim (o : SerOptions) (s : Stream) (stmts : List (List Term))
     (hs : Stream.new .graph o = .ok s) (hl : validLogical s.logicalType = true)
     (hwf : ∀ t ∈ stmts, quadWF t = true) (hfit : ∀ t ∈ stmts, stmtFits o.preset t = true) :
     (streamFrames s (.gen stmts)).err = none ∧
     ∃ st, Spec.runRows (allRowsOf (streamFrames s (.gen stmts)))
             = (st, stmts.map (fun t => Event.stmt (t.map Term.norm)), none) := by
-  obtain ⟨hv, hcls, _⟩ := Stream.new_spec hs
-  obtain ⟨henc, hrows0⟩ := enroll_fresh hs
-  apply final_assembly hs hl
-  intro ss0 oo inv0 ho0 hph _
-  obtain ⟨ss', rows, e1, e2, e5⟩ :=
-    graphsLoop_sim hv (o := oo) (by simpa [StreamClass.physical] using hph) stmts
-      { stream := s.enroll } ss0 none rfl (by rw [henc]; exact inv0) ho0 trivial hwf hfit
-  have hsf : streamFrames s (.gen stmts)
-      = epilogue (graphsLoop { stream := s.enroll } none stmts) true := by
-    simp only [streamFrames, hcls, graphsStreamFrames, prologue, SerData.stmts, e1, Option.isSome_none,
-      Bool.false_eq_true, if_false]
-  obtain ⟨a1, a2, _⟩ := allRowsOf_epilogue (graphsLoop { stream := s.enroll } none stmts) true
-  rw [hsf]
-  exact ⟨ss', rows, a2.trans e1, by rw [a1, e2, hrows0], by simpa [pendingEvs] using e5⟩
+  rcases graphs_sim_gen (F := True) o s stmts hs hl hwf (fun t ht _ => hfit t ht) with ⟨h, _⟩ | h
+  · exact absurd trivial h
+  · exact h
 
 
 /-! ## Exported statement-level corollaries (reusable core of C18/C19) -/
@@ -585,8 +850,8 @@ theorem namespace_run {P : Preset} {T : Keys} (hf : TFits P T) {es : EncState} {
       Inv P { es with te := te' } ss' ∧ ss'.opts = some o ∧ ss'.graph = ss.graph ∧
       RunsTo ss rows ss' [Event.ns name (.iri iri)] := by
   obtain ⟨te', rows, p, n, R', heq, sim, res⟩ := iriIndices_sim hf (inv.wft.tinv T) iri hkn hkp
-  obtain ⟨ssE, mE, fE, runE⟩ := sim.ing ss inv.em (by rw [hopt]; simp)
-  have hself : setLR ssE es.te = ssE :=
+  obtain ⟨ssE, mE, fE, runE⟩ := sim.ing ss inv.em.startRow (by rw [hopt]; simp)
+  have hself : setLR ssE es.te.startRow = ssE :=
     setLR_eq_self (fE.lrn.trans inv.lrn) (fE.lrp.trans inv.lrp) (fE.lrd.trans inv.lrd)
   have hres := res ssE (mE.agree sim.inv.wft R')
   rw [hself] at hres
